@@ -1,11 +1,12 @@
 SPECIFICATION MSpec
 CONSTANTS
   MaxFields = 1
-  Shapes = {"S1", "S2"}
+  Shapes = {"S2"}
   OutOfDomain = FALSE
   MeasureFromPlaceholder = FALSE
-  PreSet <- PreNone
-  ConsumeSome = FALSE
+  PreSet <- PreSome
+  OptSets <- OptSetsBO
+  ConsumeSome = TRUE
   PosFromReadable = FALSE
 INVARIANTS Refines PreUntouched OnlyChecksumsSeePre ChecksumSeesPrefix PrimsDiscipline PatchedIffLen
 PROPERTY AppendOnlyExceptPatch
